@@ -10,7 +10,7 @@
    (void, 1/2/4/8-byte, bit lists), any depth; not yet: pointer lists, struct lists, capabilities. *)
 From CV Require Import Value.ValueEq Value.ValueEqProofs Value.EqualM Value.Den Value.DenFacts Value.DenLists
                        Value.CanonSpec Value.CanonProofs3 Value.CanonM Value.CanonMStruct Value.CanonMData Value.CanonMHeap
-                       Value.CanonMLoop Value.CanonMInd Value.CanonMListR Value.CopyValue Value.CopyValueHeap.
+                       Value.CanonMLoop Value.CanonMInd Value.CanonMListR Value.CanonMListP Value.CopyValue Value.CopyValueHeap.
 From CV Require Import Core.ReaderFacts Core.SafetyProofs Core.BuilderFacts Core.ArithFacts Core.CopySafe Core.WritePtrProofs.
 From Coq Require Import ZifyBool ZifyNat.
 Ltac Zify.zify_post_hook ::= Z.div_mod_to_equations.
@@ -21,7 +21,8 @@ Fixpoint cvdom (v : value) : bool :=
   | VNull => true
   | VStruct _ ps => forallb cvdom ps
   | VBits _ => true
-  | VList LPtr _ | VList LComp _ => false
+  | VList LPtr es => forallb cvdom es
+  | VList LComp _ => false
   | VList _ _ => true
   | VCap _ => false
   end.
@@ -466,6 +467,141 @@ Proof.
       unfold sub. cbn [Z.to_nat skipn]. apply firstn_all2. unfold zlen in Lbs. lia.
 Qed.
 
+(* ------------------------------------------------------------------ pointer lists *)
+Lemma wp_ptr_list f : P_cs f -> forall D cap rl a src vs fc w',
+  hinv D -> 0 <= a -> a mod 8 = 0 -> a + 8 <= zlen D ->
+  wf_ptr m src -> den true m 0 [] src (VList LPtr vs) -> forallb cvdom vs = true ->
+  write_ptr (S f) true (dstw D cap m rl) 0 a InSrc src fc = Ok w' ->
+  exists word body cap' rl',
+    w' = dstw (put_word D a word ++ body) cap' m rl' /\ hinv (D ++ body) /\
+    forall pre' tail, zlen pre' = zlen D -> word_is pre' a word -> zlen (pre' ++ body ++ tail) <= BOUND ->
+      reads_as (pre' ++ body ++ tail) a (VList LPtr vs).
+Proof.
+  intros HC D cap rl a src vs fc w' Hi Ha Ham Hab Hwf D0 Hsd H.
+  destruct (CanonMListP.den_ptrs_inv m _ _ D0) as (Hv & Hk & Hb & Hc & Hsz & Lvs & K).
+  destruct (den_elem true m 0 [] src LPtr vs Hm D0 Hv) as (_ & _ & _ & DE).
+  destruct (Hwf Hv) as (Hseg & Hobj). unfold wf_obj in Hobj. rewrite Hk, Hb, Hsz in Hobj.
+  destruct Hobj as (Ho & Hlen & _ & Hbd). change (totalSize (mkOS 0 1)) with 8 in Hbd.
+  assert (Hsl : zlen (seg_of m src) <= 4294967288) by (apply seg_of_ok; assumption).
+  destruct Hi as [Hi1 Hi2]. assert (Z0 : 0 <= zlen D) by (unfold zlen; lia).
+  set (n := p_len src) in *.
+  assert (Esz : list_allocSize src = 8 * n).
+  { unfold list_allocSize. rewrite Hv, Hb, Hc, Hsz. cbn [negb]. change (totalSize (mkOS 0 1)) with 8. fold n.
+    rewrite times_some by (unfold maxSegmentSize; lia). reflexivity. }
+  rewrite write_ptr_S in H. rewrite Hv, Hk in H. cbn [negb] in H.
+  replace (fc || is_src InSrc) with true in H by (cbn [is_src]; rewrite Bool.orb_true_r; reflexivity).
+  cbv zeta in H. rewrite Esz in H. cbn [w_dst dstw] in H.
+  destruct (alloc (seg0 D cap) 0 (8 * n)) as [[[m1 sid1] addr]| |] eqn:Ea; try discriminate H.
+  pose proof (alloc_bound D cap (8 * n) m1 sid1 addr ltac:(lia) ltac:(lia) Ea) as Hbound0.
+  destruct (alloc_seg0 D cap (8 * n) m1 sid1 addr Hi1 ltac:(lia) Ea) as (cap1 & -> & -> & ->).
+  rewrite (padToWord_mult (8 * n)) in * by lia.
+  cbn [bind] in H. rewrite Hc, Hb, Hsz in H. cbn [bind PointerCount orb] in H. change (1 =? 0) with false in H. cbv iota in H.
+  unfold list_len in H. rewrite Hv in H. fold n in H.
+  set (D1 := D ++ repeat 0 (Z.to_nat (8 * n))) in *.
+  change (w_set_dst (dstw D cap m rl) (seg0 D1 cap1)) with (dstw D1 cap1 m rl) in H.
+  assert (L1 : zlen D1 = zlen D + 8 * n) by (unfold D1; rewrite zlen_app; unfold zlen; rewrite repeat_length; lia).
+  set (dstl := mkPtr true 0 (zlen D) n (mkOS 0 1) maxDepth KList false false false) in *.
+  match type of H with context [fold_res (iota (Z.to_nat n)) ?w0 ?st] => set (step := st) in * end.
+  set (P := fun (i : Z) (M : list Z) => zlen M <= BOUND -> reads_as M (zlen D + 8 * i) (nthv (sptrs (nthv vs i)) 0)).
+  assert (Hstep : forall i D0' cap0 rl0 w0, 0 <= i < Z.of_nat (Z.to_nat n) -> hinv D0' -> zlen D + 8 * Z.of_nat (Z.to_nat n) <= zlen D0' ->
+            step (dstw D0' cap0 m rl0) i = Ok w0 ->
+            exists word body cap' rl',
+              w0 = dstw (put_word D0' (zlen D + 8 * i) word ++ body) cap' m rl' /\ hinv (D0' ++ body) /\
+              forall pre' tail, zlen pre' = zlen D0' -> word_is pre' (zlen D + 8 * i) word -> P i (pre' ++ body ++ tail)).
+  { intros i D0' cap0 rl0 w0 Hi0 Hinv0 Hb0 Hs0. unfold step in Hs0.
+    assert (Hin : 0 <= i < n) by lia.
+    assert (EA : list_struct true dstl i
+                 = Ok (mkPtr true 0 (zlen D + 8 * i) 0 (mkOS 0 1) (if true && (maxDepth =? 0) then 0 else uint_dec maxDepth) KStruct false false true)).
+    { unfold list_struct, dstl. cbn [p_valid p_len p_bit p_off p_size p_seg p_depth negb orb].
+      destruct ((i <? 0) || (i >=? n)) eqn:E1; [lia|]. change (totalSize (mkOS 0 1)) with 8.
+      rewrite CanonMListP.element_some by lia. f_equal. f_equal. lia. }
+    rewrite EA in Hs0. cbn [bind] in Hs0.
+    set (de := mkPtr true 0 (zlen D + 8 * i) 0 (mkOS 0 1) (if true && (maxDepth =? 0) then 0 else uint_dec maxDepth) KStruct false false true) in *.
+    assert (Ex : exists se, list_struct true src i = Ok se).
+    { unfold list_struct. rewrite Hv, Hb. cbn [negb orb]. fold n.
+      destruct ((i <? 0) || (i >=? n)) eqn:E; [lia|].
+      destruct (element (p_off src) i (totalSize (p_size src))); eexists; reflexivity. }
+    destruct Ex as (se & El). rewrite El in Hs0. cbn [bind] in Hs0.
+    assert (Hbi : 0 <= p_off src + i * totalSize (p_size src) <= zlen (seg_of m src)) by (rewrite Hsz; change (totalSize (mkOS 0 1)) with 8; lia).
+    pose proof (list_struct_elem m src i se Hm Hv Hb ltac:(lia) Hbi El) as Hcore.
+    pose proof (list_struct_safe true m src i Hm (conj Hwf (fun _ => Hk)) ltac:(unfold list_len; rewrite Hv; lia)) as SS.
+    rewrite El in SS. cbn [res_sat] in SS. destruct SS as [We Ke].
+    destruct Hcore as (Cv & Cs & Co & Cl & Cz & Ck & Cc & Cb).
+    assert (Ve : p_valid se = true) by (rewrite Cv; reflexivity).
+    assert (Kse : p_kind se = KStruct) by (rewrite Ck; reflexivity).
+    assert (De : den true m 0 [] se (nthv vs i)).
+    { eapply den_core; [|apply (DE i); lia]. unfold same_core. repeat split; symmetry; assumption. }
+    assert (Ale : aligned se) by (intros _; rewrite Cz; cbn [elem_ptr p_size]; rewrite Hsz; reflexivity).
+    destruct (K i Hin) as (dep & rlk & q & rlk' & vi & RK & DK & Evi).
+    rewrite Evi in De.
+    assert (SDi : forallb cvdom [vi] = true).
+    { assert (SD0 : cvdom (nthv vs i) = true).
+      { unfold nthv. eapply forallb_In; [exact Hsd|]. apply nth_In. unfold zlen in *. lia. }
+      rewrite Evi in SD0. exact SD0. }
+    assert (Hdst : dst_at de (zlen D + 8 * i) 0 1) by (unfold dst_at, de; cbn; repeat split; reflexivity).
+    destruct (HC D0' cap0 rl0 de se [] [vi] (zlen D + 8 * i) 0 1 w0 Hinv0 Hdst ltac:(lia) ltac:(lia)
+                 ltac:(lia) ltac:(lia) ltac:(lia) Ve Kse We Ale De SDi Hs0)
+      as (pwords & kids & cap2 & rl2 & Lp & -> & Hinv2 & PostC).
+    destruct pwords as [|pw [|? ?]]; try (unfold zlen in Lp; cbn [length] in Lp; lia).
+    cbn [Z.to_nat resize_words firstn repeat app Nat.sub length] in *.
+    exists pw, kids, cap2, rl2. split; [rewrite set_slots_one; reflexivity|]. split; [exact Hinv2|].
+    intros pre' tail Lp' Hwd Hbound.
+    pose proof (PostC pre' tail Lp') as R. replace (8 * (0 + 1)) with 8 in R by lia.
+    specialize (R ltac:(unfold word_is in Hwd; rewrite Hwd; unfold bytes_of_words; cbn [flat_map]; rewrite app_nil_r; reflexivity) Hbound 0 ltac:(lia)).
+    replace (zlen D + 8 * i + 8 * 0 + 8 * 0) with (zlen D + 8 * i) in R by lia.
+    rewrite Evi. cbn [sptrs]. unfold resize_ptrs in R. cbn [Z.to_nat Pos.to_nat Pos.iter_op Nat.add firstn length Nat.sub repeat app] in R.
+    exact R. }
+  destruct (fold_res (iota (Z.to_nat n)) (dstw D1 cap1 m rl) step) as [w3| |] eqn:E1; try discriminate H. cbn [bind] in H.
+  destruct (sem_loop step m (zlen D) (Z.to_nat n) P ltac:(lia) Hi1 Hstep (Z.to_nat n) (le_n _) D1 cap1 rl w3
+                     ltac:(split; lia) ltac:(rewrite L1; lia) E1)
+    as (words & kids & cap2 & rl2 & Lw & -> & Hinvk & PostL).
+  assert (Edata : set_slots D1 (zlen D) words = D ++ bytes_of_words words).
+  { unfold D1. replace (Z.to_nat (8 * n)) with (8 * length words)%nat by lia. apply set_slots_end. }
+  rewrite Edata in H.
+  cbn [p_comp p_seg p_off dstl] in H.
+  assert (Elr : list_raw dstl = Ok (rawListPointer 0 6 n)) by reflexivity.
+  rewrite Elr in H. cbn [bind] in H.
+  unfold place in H. cbn [w_dst dstw] in H. change (0 =? 0) with true in H. cbv iota in H. unfold lift0 in H.
+  assert (Lbw : zlen (bytes_of_words words) = 8 * n) by (unfold zlen; rewrite bow_length; lia).
+  assert (Lk0 : 0 <= zlen kids) by (unfold zlen; lia).
+  assert (Hk2 : zlen D + 8 * n + zlen kids <= BOUND).
+  { destruct Hinvk as [_ X]. rewrite zlen_app, L1 in X. unfold BOUND. lia. }
+  rewrite writeRaw_seg0 in H by (rewrite ?zlen_app, ?Lbw; unfold BOUND in *; lia). cbn [bind] in H.
+  apply Ok_inj in H. subst w'.
+  set (word := withOffset (rawListPointer 0 6 n) (nearPointerOffset a (zlen D))) in *.
+  exists word, (bytes_of_words words ++ kids), cap2, rl2.
+  split.
+  { unfold dstw, w_set_dst. cbn [w_src w_src_rl]. f_equal. f_equal. rewrite <- app_assoc. apply put_word_app_left; lia. }
+  split.
+  { unfold hinv in *. rewrite !zlen_app in *. rewrite L1 in Hinvk. rewrite Lbw. lia. }
+  intros pre' tail Lp' Hw Hbound.
+  set (M := pre' ++ (bytes_of_words words ++ kids) ++ tail) in *.
+  assert (LM : zlen M = zlen D + 8 * n + zlen kids + zlen tail) by (unfold M; rewrite !zlen_app, Lbw; lia).
+  assert (Lt0 : 0 <= zlen tail) by (unfold zlen; lia).
+  assert (HwM : word_is M a word) by (unfold word_is, M in *; rewrite sub_app_l by lia; exact Hw).
+  destruct (read_near_list true M a (zlen D) 6 n 1 ltac:(lia) Hlen Ha Ham ltac:(lia) ltac:(unfold BOUND in *; lia) Z0 Hi1) as (rl' & RR).
+  - cbv zeta. rewrite (elementSize_raw 6 n) by lia. change (6 =? 1) with false. cbv iota.
+    change (totalSize (es_of 6)) with 8. lia.
+  - exact HwM.
+  - lia.
+  - cbv zeta in RR. rewrite (elementSize_raw 6 n) in RR by lia. change (6 =? 1) with false in RR. cbv iota in RR.
+    change (es_of 6) with (mkOS 0 1) in RR.
+    set (q := mkPtr true 0 (zlen D) n (mkOS 0 1) (uint_dec 1) KList false false false) in *.
+    exists 1, 4294967288, q, rl'. split; [exact RR|]. intros mid caps.
+    assert (EM : M = (pre' ++ bytes_of_words words) ++ kids ++ tail) by (unfold M; rewrite <- !app_assoc; reflexivity).
+    assert (Hblock : sub (pre' ++ bytes_of_words words) (zlen D) (8 * Z.of_nat (Z.to_nat n)) = bytes_of_words words).
+    { rewrite sub_app_r by lia. rewrite Lp', Z.sub_diag. unfold sub. cbn [Z.to_nat skipn]. apply firstn_all2.
+      rewrite bow_length. lia. }
+    apply den_ptrs; try reflexivity; try assumption.
+    intros i Hi0. cbn [q p_len] in Hi0.
+    destruct (K i Hi0) as (dep & rlk & q0 & rlk' & vi & RK & DK & Evi).
+    pose proof (PostL (pre' ++ bytes_of_words words) tail ltac:(rewrite zlen_app, Lbw, L1; lia) Hblock i ltac:(lia)) as R.
+    unfold P in R. rewrite <- EM in R. specialize (R Hbound).
+    destruct R as (dep1 & rl1 & q1 & rl1' & R1 & D1').
+    exists dep1, rl1, q1, rl1', vi. cbn [q p_seg p_off]. unfold seg_of. cbn [p_seg Z.to_nat nth].
+    split; [exact R1|]. split; [|exact Evi]. rewrite Evi in D1'. cbn [sptrs nthv Z.to_nat nth] in D1'. exact (D1' mid caps).
+Qed.
+
 (* den of a struct of the single segment M from its block: data words and pointer slots *)
 Lemma struct_den M q A dn pn dws vs' :
   p_valid q = true -> p_kind q = KStruct -> p_seg q = 0 -> p_off q = A -> p_size q = mkOS (8 * dn) pn ->
@@ -506,8 +642,9 @@ Proof.
     unfold word_is in *. rewrite sub_app_l by lia. exact Hw. }
   destruct v as [| |ws vs|k vs|bits]; try discriminate Hsd.
   { pose proof (den_null_iff _ _ _ _ _ _ D0) as Hn. rewrite Hv in Hn. discriminate. }
-  2:{ apply (wp_raw_list f D cap rl a src (VList k vs) fc w'); try assumption.
-      destruct k; try discriminate Hsd; split; discriminate. }
+  2:{ destruct k; try discriminate Hsd;
+        try (apply (wp_raw_list f D cap rl a src (VList _ vs) fc w'); try assumption; split; discriminate).
+      apply (wp_ptr_list f HC D cap rl a src vs fc w'); assumption. }
   2:{ apply (wp_raw_list f D cap rl a src (VBits bits) fc w'); try assumption. exact I. }
   assert (Hk : p_kind src = KStruct) by (inversion D0; subst; congruence).
   rewrite Hk in H.
